@@ -175,6 +175,9 @@ func (e *Encoder) writeValue(val reflect.Value, tagType byte) error {
 
 		for i := 0; i < val.Len(); i++ {
 			arrType, arrVal := getTagType(val.Index(i))
+			if arrType != eleType {
+				return fmt.Errorf("cannot encode %v as TagList: element %d has tag type 0x%02x, the list has 0x%02x", val.Type(), i, arrType, eleType)
+			}
 			err := e.marshal(arrVal, arrType)
 			if err != nil {
 				return err
